@@ -75,8 +75,8 @@ func TestC11(t *testing.T) {
 		hostSetFor(cfg, wire)
 		pcfg := pluginCfgFor(wire)
 		env := []string{}
-		if p.JitterUs > 0 {
-			env = append(env, fmt.Sprintf("VERIF_HOOK=grpcstdio.chunkRead:sleep:0"))
+		if p.PluginHook != "" {
+			env = append(env, "VERIF_HOOK="+p.PluginHook)
 		}
 		if len(p.Pre.Frames) > 0 {
 			pcfg["preWrite"] = toPlan(p.Pre)
